@@ -511,22 +511,22 @@ type AtSpec struct { // ghost updates / asserts anchored at a call site
 }
 
 type FuncSpec struct {
-	Name     string // ssa RelString relative to its package, e.g. (*PipelineRunner).startJob
-	Pkg      string
-	Requires []*Clause
-	Steps    []*Clause // step invariants: proved after every call instruction of the function
-	Assumes  []*Clause // assumed at entry, NOT checked at call sites: listed assumption (stable facts about entry points)
-	Ensures  []*Clause
-	Modifies []ModItem
-	ModAll   bool // no modifies clause given: everything may change
-	HasMod   bool
-	Loops    map[int]*LoopSpec
-	Ats      []*AtSpec
-	Trusted  bool // contract assumed, body not verified (extern-like)
-	Safety   bool
-	Line     string
-	LockMode string // "", "none", "R", "W", "any"
-	Pure     bool
+	Name      string // ssa RelString relative to its package, e.g. (*PipelineRunner).startJob
+	Pkg       string
+	Requires  []*Clause
+	Steps     []*Clause // step invariants: proved after every call instruction of the function
+	Assumes   []*Clause // assumed at entry, NOT checked at call sites: listed assumption (stable facts about entry points)
+	Ensures   []*Clause
+	Modifies  []ModItem
+	ModAll    bool // no modifies clause given: everything may change
+	HasMod    bool
+	Loops     map[int]*LoopSpec
+	Ats       []*AtSpec
+	Trusted   bool // contract assumed, body not verified (extern-like)
+	Safety    bool
+	Line      string
+	LockMode  string // "", "none", "R", "W", "any"
+	Pure      bool
 	AllowRead []string // fields that may be read without the lock in this function (listed as assumption)
 }
 
@@ -563,13 +563,14 @@ type Contracts struct {
 	Files   []string
 	Trusted []string // scan result: every trusted/assume/extern line
 	// lock discipline declarations: each entry is (package path, text)
-	LockDomain []PkgText
-	Immutable  []PkgText
-	Unguarded  []PkgText
-	GuardedMap []PkgText
-	GuardedMem []PkgText
-	Monitors   []MonitorSpec
-	Writers    []WritersSpec
+	LockDomain  []PkgText
+	Immutable   []PkgText
+	Unguarded   []PkgText
+	GuardedMap  []PkgText
+	GuardedMem  []PkgText
+	Monitors    []MonitorSpec
+	Relies      []MonitorSpec // two-state facts other goroutines guarantee while this goroutine does not hold the lock
+	Writers     []WritersSpec
 	GlobalInits []WritersSpec
 	LockDefault map[string]string // package path -> lock mode of functions without an explicit lockmode
 }
@@ -594,7 +595,7 @@ var clauseKeywords = map[string]bool{
 	"func": true, "requires": true, "ensures": true, "assumes": true, "step": true, "globalinit": true, "modifies": true, "loop": true,
 	"pure": true, "property": true, "ghost": true, "lemma": true, "lockmode": true,
 	"at": true, "trusted": true, "safety": true, "end": true, "lpre": true, "lpost": true,
-	"lockdefault": true, "writers": true, "allowread": true, "monitor": true, "lockdomain": true, "immutable": true, "unguarded": true, "guardedmap": true, "guardedmem": true,
+	"lockdefault": true, "writers": true, "allowread": true, "monitor": true, "rely": true, "lockdomain": true, "immutable": true, "unguarded": true, "guardedmap": true, "guardedmem": true,
 }
 
 // LoadContracts reads every *_contracts_verif.go below root. modPath is the Go module path.
@@ -882,6 +883,12 @@ func (c *Contracts) parseFile(path, pkg string) error {
 				return fmt.Errorf("%s: malformed writers line", where)
 			}
 			c.Writers = append(c.Writers, WritersSpec{Pkg: pkg, Field: strings.TrimSpace(rest[:k]), Funcs: splitTop(rest[k+1:]), Line: where})
+		case "rely":
+			cl, err := parseClause("rely", rest, where)
+			if err != nil {
+				return err
+			}
+			c.Relies = append(c.Relies, MonitorSpec{pkg, cl})
 		case "monitor":
 			cl, err := parseClause("monitor", rest, where)
 			if err != nil {
